@@ -394,6 +394,10 @@ pub fn remaining_file_content<'a>(input: &'a mut LineReader) -> Result<&'a str, 
         .is_some()
     {}
 
+    // The comment extends to the end of the input, which must not be confused with the data
+    // ending early because of an IO error.
+    input.reader.check_io_error()?;
+
     let bytes = input.reader.buf();
 
     match (std::str::from_utf8(bytes), bytes.last()) {
